@@ -33,6 +33,11 @@ def check(ctx, tier):
     sample_cast(ctx, tk, f)
     values_writers(ctx, tk)
     fast_dtype(ctx, tk)
+    n0 = len(ctx.obligations)
+    C11.single_hash(ctx, tk)
+    ctx.obligations[n0:] = [o for o in ctx.obligations[n0:] if o.key in ("value-dtype-source", "mod-of-buckets") or o.func.endswith("Counter.count")]
+    for o in ctx.obligations[n0:]:
+        o.rule = "C12.i"
     C11.ownership(ctx, tk)
     for o in ctx.obligations:
         if o.rule == "C11.a":
